@@ -398,19 +398,66 @@ def analyse_tu(tu):
 # EMBEDDED-LEAF: a tree with a single, oid-less leaf stores the leaf's state
 # inside its own state, so a write to that leaf must register the *tree*.
 
-def _conjuncts(e):
+class _Neg(object):
+    """negated conjunct (wrapper understood by _atom)"""
+    def __init__(self, e):
+        self.e = e
+
+
+def _predicate_conjuncts(tu, name, depth=0):
+    """Conjuncts under which a small boolean helper returns non-zero, when it
+    has the shape  (if (c) return 0;)*  return <non-zero | expr>;  else None."""
+    if tu is None or name not in tu.funcs or depth > 3:
+        return None
+    out = []
+    for st in tu.body(name).kids:
+        if st.k in ("DeclStmt", "NullStmt"):
+            continue
+        if st.k == "IfStmt" and len(st.kids) == 2:
+            rets = [r for r in st.kids[1].walk() if r.k == "ReturnStmt"]
+            body = st.kids[1]
+            single = body if body.k == "ReturnStmt" else (
+                body.kids[0] if body.k == "CompoundStmt" and len(body.kids) == 1 else None)
+            if single is not None and single.k == "ReturnStmt" and single.kids and \
+                    const_int(single.kids[0]) == 0 and len(rets) == 1:
+                out.append(_Neg(st.kids[0]))
+                continue
+            return None
+        if st.k == "ReturnStmt" and st.kids:
+            c = const_int(st.kids[0])
+            if c is not None:
+                return out if c != 0 else None
+            return out + _conjuncts(st.kids[0], tu, depth + 1)
+        return None
+    return None
+
+
+def _conjuncts(e, tu=None, depth=0):
+    if isinstance(e, _Neg):
+        inner = strip(e.e)
+        # !(a || b) == !a && !b
+        if inner is not None and inner.k == "BinaryOperator" and inner.v == "||":
+            return _conjuncts(_Neg(inner.kids[0]), tu, depth) + _conjuncts(_Neg(inner.kids[1]), tu, depth)
+        return [e]
     e = strip(e)
     if e is not None and e.k == "BinaryOperator" and e.v == "&&":
-        return _conjuncts(e.kids[0]) + _conjuncts(e.kids[1])
+        return _conjuncts(e.kids[0], tu, depth) + _conjuncts(e.kids[1], tu, depth)
+    if e is not None and e.k == "CallExpr" and callee(e)[0] == "fn":
+        sub = _predicate_conjuncts(tu, callee(e)[1], depth)
+        if sub is not None:
+            return sub
     return [e]
 
 
 def _atom(e):
     """Normalised atom of one conjunct."""
+    neg = False
+    while isinstance(e, _Neg):
+        neg = not neg
+        e = e.e
     e = strip(e)
     if e is None:
         return "other:?"
-    neg = False
     while e.k == "UnaryOperator" and e.v == "!":
         neg = not neg
         e = strip(e.kids[0])
@@ -464,7 +511,7 @@ def embedded_leaf(tu):
                     if x.k == "BinaryOperator" and x.v == "=" and
                     path(x.kids[0]) == "changed" and const_int(x.kids[1]) not in (None, 0)]
             if sets:
-                mark = set(_atom(c) for c in _conjuncts(n.kids[0]))
+                mark = set(_atom(c) for c in _conjuncts(n.kids[0], tu))
                 facts["mark_site"] = "%s:%s" % (n.f, n.l)
     if flagvar and mark is None:
         findings.append(dict(
@@ -480,7 +527,7 @@ def embedded_leaf(tu):
         if n.k == "IfStmt" and any(
                 x.k == "CallExpr" and callee(x) == ("fn", "bucket_getstate")
                 for x in n.kids[1].walk()):
-            embed = set(_atom(c) for c in _conjuncts(n.kids[0]))
+            embed = set(_atom(c) for c in _conjuncts(n.kids[0], tu))
             facts["embed_site"] = "%s:%s" % (n.f, n.l)
     if embed is None:
         raise AnalysisError("anchor vanished: BTree_getstate has no embedded-leaf branch")
